@@ -99,7 +99,9 @@ def run(module, cfg_text, scratch, env=None, workers=4, timeout=600, coverage=Fa
     with open(cfg, "w") as f:
         f.write(cfg_text)
     meta = os.path.join(scratch, "meta-" + name)
-    cmd = ["java", "-XX:+UseParallelGC", "-Xss32m", "-Xmx" + heap, "-cp", TLA_JAR + ":" + TLA_DEPS, "tlc2.TLC",
+    jtmp = os.path.join(scratch, "jtmp")          # TLC leaves an empty tlc-* directory per run in java.io.tmpdir: keep them out of /tmp
+    os.makedirs(jtmp, exist_ok=True)
+    cmd = ["java", "-Djava.io.tmpdir=" + jtmp, "-XX:+UseParallelGC", "-Xss32m", "-Xmx" + heap, "-cp", TLA_JAR + ":" + TLA_DEPS, "tlc2.TLC",
            "-workers", str(workers), "-metadir", meta, "-noGenerateSpecTE", "-config", cfg]
     if coverage:
         cmd += ["-coverage", "1"]
